@@ -248,3 +248,7 @@ Proof.
   - apply apply_isinstance_is_skel.
   - apply apply_isvalue_is_skel.
 Qed.
+
+(* ---- what _constraint_from_compare_op hands to InPredicate ---- *)
+Lemma in_arg_tie : gen_in_arg = model_in_arg.
+Proof. reflexivity. Qed.
